@@ -21,7 +21,16 @@ fn run_script(script: &Script) {
         Some(cfg) => {
             let mut harness = Harness::new(cfg);
 
+            let mut last_flush = std::time::Instant::now();
+
             for line in script.lines.iter() {
+                // heartbeat for the orchestrator's watchdog: a script that makes the library spin shows up as
+                // "no output for N seconds", not as an hour-long run
+                if last_flush.elapsed().as_millis() >= 500 {
+                    obs::flush();
+                    last_flush = std::time::Instant::now();
+                }
+
                 obs::emit(&format!("> {}", line));
 
                 let applied = script::parse_event(line)
